@@ -36,8 +36,11 @@ def config_args(cfg):
 
 
 def cfg_key(cfg):
-    return "%s/%s/%s/%s/%s/%s" % (cfg.get("acc", "ethos-u65-256"), cfg.get("mem", "default"), cfg.get("opt", "Performance"),
-                                  cfg.get("arena"), cfg.get("alloc", "HillClimb"), cfg.get("align", 16))
+    k = "%s/%s/%s/%s/%s/%s" % (cfg.get("acc", "ethos-u65-256"), cfg.get("mem", "default"), cfg.get("opt", "Performance"),
+                               cfg.get("arena"), cfg.get("alloc", "HillClimb"), cfg.get("align", 16))
+    if cfg.get("extra"):
+        k += "/" + " ".join(cfg["extra"])
+    return k
 
 
 # configuration lattice ------------------------------------------------------------------------
@@ -97,6 +100,19 @@ def lattice(name):
                 ("ethos-u65-256", "Dedicated_Sram", "Performance", 1, "HillClimb", 64),
                 ("ethos-u55-128", "Shared_Sram", "Performance", 0, "HillClimb", 16)]
         return [dict(acc=a, mem=m, opt=o, arena=ar, alloc=al, align=ag) for a, m, o, ar, al, ag in rows]
+    if name == "cO":
+        # rarely combined command-line options on two accelerators (every option changes which code runs, none changes what the network computes
+        # for the operators of the `options` level)
+        extras = [["--force-symmetric-int-weights"], ["--enable-debug-db"], ["--max-block-dependency", "0"], ["--max-block-dependency", "1"],
+                  ["--show-subgraph-io-summary", "--verbose-config", "--verbose-progress"], ["--hillclimb-max-iterations", "1"], ["--recursion-limit", "2000"],
+                  ["--verbose-allocation", "--verbose-high-level-command-stream", "--verbose-register-command-stream", "--verbose-operators"],
+                  ["--verbose-graph", "--verbose-quantization", "--verbose-packing", "--verbose-tensor-purpose", "--verbose-tensor-format", "--verbose-schedule", "--verbose-weights"],
+                  ["--timing", "--verbose-performance", "--show-cpu-operations"]]
+        out = []
+        for i, ex in enumerate(extras):
+            a, m, o, ar, al, ag = [("ethos-u55-128", "Shared_Sram", "Performance", None, "HillClimb", 16), ("ethos-u65-512", "default", "Size", None, "Greedy", 64)][i % 2]
+            out.append(dict(acc=a, mem=m, opt=o, arena=ar, alloc=al, align=ag, extra=ex))
+        return out
     if name == "c4":
         return lattice("c8")[:4]
     if name == "c2":
